@@ -100,8 +100,9 @@ func init() {
 
 	g1Specs["C04rounds"] = func(tier string) *G1Spec {
 		alpha := []*BatchSpec{{Ops: ops("S:a")}, {Ops: ops("D:a")}, {Ops: ops("E:a", "S:b")},
-			{Kids: kid("A", &BatchSpec{Ops: ops("S:a")})}, {DelKids: []string{"A"}}}
-		return asRounds(g1Specs["C04"](tier), tier, alpha, false, 0.25)
+			{Kids: kid("A", &BatchSpec{Ops: ops("S:a")})}, {DelKids: []string{"A"}}, {Kids: kid("A", &BatchSpec{Ops: ops("S:b")})}}
+		// extra step: child A deleted and recreated (with another key) within one persistence round
+		return asRounds(g1Specs["C04"](tier), tier, alpha, false, 0.25, "B4/B5/M/Pb/Pe")
 	}
 	g1Groups["C04"] = []string{"C04", "C04rounds"}
 
@@ -118,8 +119,9 @@ func init() {
 	g1Groups["C10"] = []string{"C10", "C10rounds"}
 
 	g1Specs["C11rounds"] = func(tier string) *G1Spec {
-		alpha := []*BatchSpec{c11Alpha[0], c11Alpha[2], c11Alpha[3], c11Alpha[6], c11Alpha[7]}
-		return asRounds(g1Specs["C11"](tier), tier, alpha, false, 0.25)
+		alpha := []*BatchSpec{c11Alpha[0], c11Alpha[2], c11Alpha[3], c11Alpha[6], c11Alpha[7], c11Alpha[1]}
+		// extra step: child A deleted and recreated (with another key, next to a new sibling B) within one persistence round
+		return asRounds(g1Specs["C11"](tier), tier, alpha, false, 0.25, "B2/B5/M/Pb/Pe")
 	}
 	g1Groups["C11"] = []string{"C11", "C11rounds"}
 
